@@ -14,4 +14,19 @@ void  *vm_memset(void *d, int c, size_t n);
 int    vm_isspace(int c);
 int    vm_isdigit(int c);
 int    vm_atoi(const char *s);
+/* the other libc number parsers a unit could call instead (C11 7.22.1.3/.4); bounded by the string length */
+long               vm_strtol(const char *s, char **end, int base);
+long long          vm_strtoll(const char *s, char **end, int base);
+unsigned long      vm_strtoul(const char *s, char **end, int base);
+unsigned long long vm_strtoull(const char *s, char **end, int base);
+long               vm_atol(const char *s);
+long long          vm_atoll(const char *s);
+double             vm_strtod(const char *s, char **end);
+double             vm_atof(const char *s);
+int    vm_strncmp(const char *a, const char *b, size_t n);
+int    vm_strcasecmp(const char *a, const char *b);
+int    vm_strncasecmp(const char *a, const char *b, size_t n);
+/* scanning cores shared with the sscanf model (models/stdio_model.c) */
+unsigned long long vm_scan_int(const char *s, int base, int scanf_mode, size_t *endi, int *neg, int *ovf);
+double vm_scan_float(const char *s, int scanf_mode, size_t *endi);
 #endif
